@@ -356,3 +356,7 @@ import obligations.C15  # noqa: E402,F401
 from vf.registry import alias  # noqa: E402
 
 alias("C07.undefined_variable_is_a_snowflake_error", "C15.undefined_reference_raises", "a reference to an undefined session variable in any letter case is a ProgrammingError raised before the engine sees the statement (never an engine-specific exception), and the statement changes nothing")
+
+import obligations.C03  # noqa: E402,F401
+
+alias("C07.no_current_database_only_when_there_is_none", "C03.one_step_preserves_context", "error 90105 / 90106 is raised exactly in sessions without a current database / schema - in every session state reachable by USE, incl. USE SCHEMA db.schema from a session that began without a database")
